@@ -1,24 +1,35 @@
 #!/bin/sh
-# MANIFEST.setup_cmd: build everything from files on disk, offline.
-set -e
+# MANIFEST.setup_cmd: build everything from files on disk, offline. Failures of a single
+# property's build are reported here and again (as that property's result) by its check.
 cd "$(dirname "$0")"
 export GOFLAGS=-mod=mod GOPROXY=off
 unset GOSUMDB GOTOOLCHAIN
-sh stubs/build.sh
+sh stubs/build.sh || exit 1
 mkdir -p .build evidence replays
-# Lean: whole library (all models, proofs, property theorems) and every driver that exists
-( cd lean && lake build JunoModel )
-for d in lean/JunoModel/C*/Driver.lean; do
-  [ -f "$d" ] || continue
-  id=$(basename "$(dirname "$d")" | tr 'A-Z' 'a-z')
-  ( cd lean && lake build "${id}drv" )
-done
-# Go: warm the build cache for every harness command
-cat /repo/go.sum > harness/go.sum
-[ -f harness/go.sum.extra ] && cat harness/go.sum.extra >> harness/go.sum
-export CGO_LDFLAGS="-L$(pwd)/stubs"
-for c in harness/cmd/*/; do
-  id=$(basename "$c")
-  ( cd harness && go build -tags verif -o ../.build/vh-$id ./cmd/$id ) || echo "setup: harness $id did not build (reported by its check)"
-done
+python3 - <<'PY'
+import glob, json, os, subprocess, sys
+V = os.getcwd()
+env = dict(os.environ)
+env["CGO_LDFLAGS"] = "-L" + os.path.join(V, "stubs")
+# regenerated facts first (Generated/*.lean are rewritten from /repo)
+subprocess.run(["go", "run", ".", "/repo", os.path.join(V, "lean/JunoModel/Generated/Arith.lean")], cwd=os.path.join(V, "gen"), env=env)
+open(os.path.join(V, "harness/go.sum"), "w").write(open("/repo/go.sum").read() + (open(os.path.join(V, "harness/go.sum.extra")).read() if os.path.exists(os.path.join(V, "harness/go.sum.extra")) else ""))
+targets, pkgs = [], []
+for p in sorted(glob.glob(os.path.join(V, "checks", "c[0-9]*.json"))):
+    c = json.load(open(p))
+    l = c.get("lean", {})
+    targets += l.get("modules", []) + ([l["driver"]] if l.get("driver") else [])
+    if c.get("harness"):
+        pkgs.append((c["property_id"].lower(), c["harness"]["pkg"]))
+targets = sorted(set(targets))
+r = subprocess.run(["lake", "build"] + targets, cwd=os.path.join(V, "lean"))
+if r.returncode != 0:
+    print("setup: some Lean targets failed to build; building one by one")
+    for t in targets:
+        subprocess.run(["lake", "build", t], cwd=os.path.join(V, "lean"), stdout=subprocess.DEVNULL)
+for pid, pkg in pkgs:
+    r = subprocess.run(["go", "build", "-tags", "verif", "-o", os.path.join(V, ".build", "vh-" + pid), pkg], cwd=os.path.join(V, "harness"), env=env)
+    if r.returncode != 0:
+        print("setup: harness %s did not build (reported by its check)" % pid)
+PY
 echo setup done
